@@ -15,7 +15,12 @@ def display_name(kind, slot):
     return "N%d_%d" % (kind, slot)
 
 
-CODES = [1, 2, 3, 7, 99, 255]
+CODES = [1, 2, 3, 7, 99, 255, 256, 258, 300, 511, 65543, -1, -3, 2147483647]   # mg.Fatal takes any int: codes outside 0..255, pairs that agree mod 256 (2/258, 255/511/-1), negative ones
+
+
+def zs(n):
+    """a Z literal for a Coq term"""
+    return str(n) if n >= 0 else "(%d)" % n
 
 
 def gen_call(rng, maxdep, has_ctx, root=False):
@@ -108,8 +113,8 @@ def outcome_term(k, r):
     if t == "ok":
         return "Ok"
     if r.get("silent"):
-        return {"err": "(Err 1 [])", "fatal": "(Err %d [])" % r["code"], "panicerr": "(PanicErr 1 [])",
-                "panicfatal": "(PanicErr %d [])" % r["code"]}.get(t, "(PanicVal [])")
+        return {"err": "(Err 1 [])", "fatal": "(Err %s [])" % zs(r["code"]), "panicerr": "(PanicErr 1 [])",
+                "panicfatal": "(PanicErr %s [])" % zs(r["code"])}.get(t, "(PanicVal [])")
     if t == "err":
         return "(Err 1 [%d])" % k
     if t == "errwrap":
@@ -119,11 +124,11 @@ def outcome_term(k, r):
     if t == "errzero":
         return "(Err 0 [%d])" % k        # a non-nil error whose ExitStatus() is 0: a failure all the same, with status 0
     if t == "fatal":
-        return "(Err %d [%d])" % (r["code"], k)
+        return "(Err %s [%d])" % (zs(r["code"]), k)
     if t == "panicerr":
         return "(PanicErr 1 [%d])" % k
     if t == "panicfatal":
-        return "(PanicErr %d [%d])" % (r["code"], k)
+        return "(PanicErr %s [%d])" % (zs(r["code"]), k)
     return "(PanicVal [%d])" % k
 
 
@@ -160,14 +165,14 @@ def ev_term(e):
         return "OBodyStart %d %s" % (e["k"], cc)
     if k == "be":
         r = e["r"]
-        res = "RNil" if r == "nil" else "(%s %d %s)" % ("RErr" if r == "err" else "RPanic", e["code"], toks_term(e.get("toks")))
+        res = "RNil" if r == "nil" else "(%s %s %s)" % ("RErr" if r == "err" else "RPanic", zs(e["code"]), toks_term(e.get("toks")))
         return "OBodyEnd %d %s" % (e["k"], res)
     if k == "ce":
         return "OCallEnter %s %d" % (tid_term(e["t"]), e["pc"])
     if k == "cr":
         return "OCallReturn %s %d" % (tid_term(e["t"]), e["pc"])
     if k == "cp":
-        return "OCallPanic %s %d %d %s" % (tid_term(e["t"]), e["pc"], e["code"], toks_term(e.get("toks")))
+        return "OCallPanic %s %d %s %s" % (tid_term(e["t"]), e["pc"], zs(e["code"]), toks_term(e.get("toks")))
     raise ValueError(k)
 
 
@@ -190,9 +195,16 @@ KNOWN_KNOBS = {"MAGEFILE_CACHE", "MAGEFILE_DEBUG", "MAGEFILE_ENABLE_COLOR", "MAG
                "MAGEFILE_VERBOSE"}
 
 
+# ambient variables the models know (read by mage at HEAD, or by the Go runtime / go tool and not mage's own)
+KNOWN_AMBIENT = {"TERM", "HOME", "HOMEDRIVE", "HOMEPATH", "PATH", "GOOS", "GOARCH", "GOCACHE", "GOFLAGS", "GOPATH", "GOROOT",
+                 "TMPDIR", "PWD", "USERPROFILE"}
+
+
 def discover_knobs():
-    """MAGEFILE_* names that occur in the non-test sources of the tree under test and that no model knows about: whatever
-    they are meant for, setting them must not change what the properties fix - they become an environment dimension."""
+    """Environment variables that the non-test sources of the tree under test READ and that no model knows about:
+    every MAGEFILE_* name occurring anywhere, and every name handed to os.Getenv / os.LookupEnv or bound to a constant
+    whose identifier ends in Env (CI, GITHUB_ACTIONS, RUNNER_DEBUG, ...).  Whatever they are meant for, setting them must
+    not change what the properties fix - they become an environment dimension.  Empty on the unchanged tree."""
     import re as _re
     found = set()
     for root, _, files in os.walk(REPO):
@@ -201,10 +213,13 @@ def discover_knobs():
         for fn in files:
             if fn.endswith(".go") and not fn.endswith("_test.go"):
                 try:
-                    found |= set(_re.findall(r"MAGEFILE_[A-Z0-9_]+", open(os.path.join(root, fn), errors="replace").read()))
+                    txt = open(os.path.join(root, fn), errors="replace").read()
                 except OSError:
-                    pass
-    return sorted(found - KNOWN_KNOBS)
+                    continue
+                found |= set(_re.findall(r"MAGEFILE_[A-Z0-9_]+", txt))
+                found |= set(_re.findall(r"(?:Getenv|LookupEnv)\(\s*\"([A-Za-z_][A-Za-z0-9_]*)\"", txt))
+                found |= set(_re.findall(r"\b[A-Za-z0-9_]*Env\s*=\s*\"([A-Z][A-Z0-9_]+)\"", txt))
+    return sorted(found - KNOWN_KNOBS - KNOWN_AMBIENT)
 
 
 KNOB_VALUES = ["1", "true", "0", ",", "N0_1,", "_1", "all", "10ms", "x"]
